@@ -63,6 +63,7 @@ GRAPHS = {
     "missing-leaf": {"A": [("M", "/M_main")]},
     "unparsable-leaf": {"A": [("U", "/x")], "U": "broken"},
     "missing-root": {},
+    "vanished-root": {"A": []},      # the resource is removed after the cache was filled
 }
 
 
@@ -103,6 +104,10 @@ SCRIPTS = {
     "refresh-after-repository": [("repository", "A"), ("refresh", "A"), ("load", "A")],
     "template-load": [("tdeferred", "A"), ("tload", "A"), ("tload", "A")],
     "template-deferred-twice": [("tdeferred", "A"), ("tdeferred", "A"), ("tload", "A")],
+    "load-twice": [("load", "A"), ("load", "A"), ("load", "A")],
+    "template-load-twice": [("tload", "A"), ("tload", "A"), ("tload", "A")],
+    "template-new-handler": [("tdeferred", "A"), ("tload", "A"), ("tnew", "A"), ("tload", "A"), ("tload", "A")],
+    "template-clear": [("tdeferred", "A"), ("tload", "A"), ("tclear", "A"), ("tload", "A"), ("tload", "A")],
 }
 
 
@@ -196,6 +201,14 @@ def run_script(script, urls, use_deferred=True):
                 if use_deferred:
                     th.deferred_load(url)
                 outcomes.append(("none", None))
+            elif op in ("tnew", "tclear"):
+                # another handler instance (the loader-thread table is shared by all of them) / an emptied one
+                if op == "tnew":
+                    th = templates.TemplateHandler()
+                else:
+                    th.clear()
+                outcomes.append(("none", None))
+                objs.append(("treset", url, None))
         except sched.DeadlockAbort:
             outcomes.append(("deadlock", None))
             break
@@ -214,8 +227,18 @@ def same_outcome(a, b):
     return True
 
 
-def prepare_cache(state, script, urls):
+def prepare_cache(state, script, urls, graph=None):
     shutil.rmtree(cache_dir(), ignore_errors=True)
+    if graph == "vanished-root":
+        rewrite_graph(graph, urls)
+    try:
+        _prepare_cache(state, script, urls)
+    finally:
+        if graph == "vanished-root" and os.path.exists(urls["A"][7:]):
+            os.remove(urls["A"][7:])
+
+
+def _prepare_cache(state, script, urls):
     if state in ("warm", "stale", "warm-outdated"):
         reset_tables()
         with warnings.catch_warnings():
@@ -239,7 +262,7 @@ def prepare_cache(state, script, urls):
 
 def execute(scn, urls, decisions, rng=None, p_switch=0.0):
     """One execution of a scenario under the scheduler."""
-    prepare_cache(scn["cache"], SCRIPTS[scn["script"]], urls)
+    prepare_cache(scn["cache"], SCRIPTS[scn["script"]], urls, scn["graph"])
     before = fsmon.tree_state(cache_dir()) if os.path.isdir(cache_dir()) else {}
     s = sched.Scheduler(decisions, rng)
     s.p_switch = p_switch
@@ -297,9 +320,31 @@ def judge(rec, scn, urls, ref, s, outcomes, objs, before, after, fs, decisions):
                 what = "none-instead-of-document" if o[0] == "none" else ("document-instead-of-none" if r[0] == "none" else "document-differs")
                 detail = model.diff(r[1], o[1], ignore=("id",))[:2] if o[0] == r[0] == "doc" else ""
                 rec.violation("not-transparent:%s:%s" % (step, what), "%s step %d: %s %r; trace %r" % (sk, i, what, detail, s.trace[-10:]), case)
+    # independent of the sequential reference (which runs the same code): a resource that cannot be fetched and
+    # whose cached copy is missing or outdated gives None, every time; successive loads agree
+    script = SCRIPTS[scn["script"]]
+    if scn["graph"] in ("vanished-root", "missing-root") and scn["cache"] in ("empty", "stale") and len(outcomes) == len(script):
+        for i, (step, o) in enumerate(zip(script, outcomes)):
+            if step[0] in ("load", "tload") and o[0] == "doc":
+                rec.violation("unfetchable-resource:%s-returned-a-document:%s" % (step[0], scn["cache"]),
+                              "%s step %d: the resource cannot be fetched and the cache holds %s" % (
+                                  sk, i, "nothing" if scn["cache"] == "empty" else "an outdated copy"), case)
+    prev = {}
+    if len(outcomes) == len(script):
+        for i, (step, o) in enumerate(zip(script, outcomes)):
+            if step[0] in ("refresh", "modify"):
+                prev.clear()
+            if step[0] in ("load", "tload") and o[0] in ("none", "doc"):
+                k = (step[0], step[1])
+                if k in prev and prev[k] != o[0]:
+                    rec.violation("successive-loads-disagree:%s:%s-then-%s" % (step[0], prev[k], o[0]), "%s step %d" % (sk, i), case)
+                prev[k] = o[0]
     # cache identity: repeated loads return the same object until refresh
     last = {}
     for op, url, obj in objs:
+        if op == "treset":
+            last.pop(("tload", url), None)
+            continue
         if op == "refresh":
             last.pop(("load", url), None)
             continue
@@ -314,6 +359,13 @@ def judge(rec, scn, urls, ref, s, outcomes, objs, before, after, fs, decisions):
     for e in fs.writes():
         if any(os.path.basename(p) == missing for p in e[1:]):
             rec.violation("cache-file-written-for-failed-fetch", repr(e), case)
+    if scn["graph"] == "vanished-root":
+        gone = cache_name(urls["A"])
+        for e in fs.writes():
+            if any(os.path.basename(p) == gone for p in e[1:]):
+                rec.violation("cache-file-touched-for-failed-fetch:%s" % e[0], repr(e), case)
+        if before.get(gone) != after.get(gone):
+            rec.violation("cache-file-changed-by-failed-fetch", gone, case)
 
 
 def _exc_class(exc):
@@ -341,7 +393,7 @@ def explore(ctx, scn, sdir, bound, n_random):
     rec = ctx.rec
     urls = build_graph(scn["graph"], sdir, "%d" % os.getpid())
     # sequential reference
-    prepare_cache(scn["cache"], SCRIPTS[scn["script"]], urls)
+    prepare_cache(scn["cache"], SCRIPTS[scn["script"]], urls, scn["graph"])
     with warnings.catch_warnings():
         warnings.simplefilter("ignore")
         ref, _ = run_script(SCRIPTS[scn["script"]], urls, use_deferred=False)
@@ -409,11 +461,17 @@ def _rank_of(s, i):
 
 def scenarios():
     out = []
-    for g in ("single", "chain", "diamond", "missing-leaf", "unparsable-leaf", "missing-root"):
+    for g in ("single", "chain", "diamond", "missing-leaf", "unparsable-leaf", "missing-root", "vanished-root"):
         for script in SCRIPTS:
+            if g == "vanished-root":
+                if script in ("load-twice", "deferred+load", "template-load", "template-load-twice"):
+                    for cache in ("stale", "warm-outdated"):
+                        out.append({"graph": g, "script": script, "cache": cache})
+                continue
             if "B" in [st[1] for st in SCRIPTS[script]] and g not in ("chain", "diamond"):
                 continue
-            if g == "missing-root" and script not in ("load", "deferred+load", "template-load", "repository"):
+            if g == "missing-root" and script not in ("load", "deferred+load", "template-load", "repository", "load-twice",
+                                                       "template-load-twice"):
                 continue
             for cache in ("empty", "warm", "stale", "warm-outdated"):
                 if cache != "empty" and script in ("include", "repository", "template-deferred-twice"):
@@ -449,7 +507,7 @@ def replay(case, ctx):
     sdir = env.scratch()
     scn = case["scenario"]
     urls = build_graph(scn["graph"], sdir, "replay")
-    prepare_cache(scn["cache"], SCRIPTS[scn["script"]], urls)
+    prepare_cache(scn["cache"], SCRIPTS[scn["script"]], urls, scn["graph"])
     with warnings.catch_warnings():
         warnings.simplefilter("ignore")
         ref, _ = run_script(SCRIPTS[scn["script"]], urls, use_deferred=False)
